@@ -188,6 +188,17 @@ func runGroups(e *Env) {
 			var c []byte
 			if e.Choose("wl.ctl", 5) == 0 {
 				c = mkLDataControl(code, uint8(e.Choose("wl.c1", 256)), ctrl2, uint16(e.Choose("wl.src", 65536)), uint16(e.Choose("wl.dst", 65536)), uint8(e.Choose("wl.ccmd", 4)))
+				if e.Choose("wl.ctllong", 3) == 0 {
+					// a control unit that announces a length and brings that many octets along (a
+					// malformed one: it would read as a group telegram if its control bit were ignored)
+					n := 1 + e.Choose("wl.ctln", 15)
+					c[len(c)-2] = byte(n)
+					c[len(c)-1] = 0x80 | uint8(e.Choose("wl.ctlbits", 4))
+					c = append(c, uint8(e.Choose("wl.ctlapci", 3))<<6|uint8(e.Choose("wl.ctld0", 64)))
+					for k := 1; k < n; k++ {
+						c = append(c, byte(e.Choose("wl.byte", 256)))
+					}
+				}
 			} else {
 				n := []int{1, 1, 2, 15, 16, 100, 254}[e.Choose("wl.len2", 7)]
 				d := make([]byte, n)
@@ -344,7 +355,7 @@ func runGroups(e *Env) {
 		if rec.Kind != "read" || !strings.HasPrefix(rec.Sock, lbl) {
 			continue
 		}
-		f := parseFrame(rec.Data)
+		f := parseFrame(wholeDatagram(rec))
 		if !f.OK {
 			continue
 		}
@@ -353,10 +364,10 @@ func runGroups(e *Env) {
 		case router && f.Svc == svcRoutingInd:
 			c = f.CEMI
 		case !router && f.Svc == svcTunnelReq:
-			if seenReq[string(rec.Data)] {
+			if seenReq[string(wholeDatagram(rec))] {
 				continue
 			}
-			seenReq[string(rec.Data)] = true
+			seenReq[string(wholeDatagram(rec))] = true
 			c = f.CEMI
 		default:
 			continue
